@@ -536,10 +536,12 @@ class RecordContextMatcher:
         self.selector_backtrace = []
         self.selector_backtrace_verbosity = backtrace_verbosity
         self.data = {}
+        self.generator_variables = set()
         self.rec = None
 
     def matches(self, rec):
         self.selector_backtrace = []
+        self.generator_variables = set()
         self.data = {
             "None": None,
             "True": True,
@@ -648,8 +650,17 @@ class RecordContextMatcher:
             if not isinstance(node.func, (ast.Attribute, ast.Name)):
                 raise InvalidOperation("Error, only ast.Attribute or ast.Name are expected")
 
+            # Only plain (dotted) names can be called, so no methods of values, call results or constants.
+            # Generator variables are never callable, whatever their name or value is.
+            func_root = node.func
+            while isinstance(func_root, ast.Attribute):
+                func_root = func_root.value
             func_name = resolve_attr_path(node)
-            if not (callable(self.data.get(func_name)) or func_name in WHITELIST):
+            if (
+                not isinstance(func_root, ast.Name)
+                or func_root.id in self.generator_variables
+                or not (callable(self.data.get(func_name)) or func_name in WHITELIST)
+            ):
                 raise InvalidOperation(
                     "Call '{}' not allowed. No calls other then whitelisted 'global' calls allowed!".format(func_name)
                 )
@@ -687,6 +698,7 @@ class RecordContextMatcher:
                 resolved_gen = self.eval(gen)
                 if resolved_gen is not NONE_OBJECT:
                     for val in resolved_gen:
+                        self.generator_variables.add(loop_index_var_name)
                         self.data[loop_index_var_name] = val
                         if not all(self.eval(cond) for cond in gen.ifs):
                             continue
@@ -720,6 +732,7 @@ class RecordContextMatcher:
                     # The loop variables are local to this generator expression
                     for gen in node.generators:
                         self.data.pop(gen.target.id, None)
+                        self.generator_variables.discard(gen.target.id)
 
             return generator_expr()
 
